@@ -108,6 +108,18 @@ func embeddedDigest(blob []byte) []byte {
 	return out
 }
 
+// the io.ReaderAt kinds of C03 (index = the case's "rd" / "rd2"; 0 is what every older case means)
+var c03ReaderKinds = []string{"bytes.Reader", "eof-with-last-read", "section-window", "section-oversized", "section-unbounded", "size-is-capacity", "strings.Reader", "os.File"}
+
+// capReaderAt: a caller's ReaderAt that also has a Size method - the capacity of the storage it reads from, which
+// is larger than the file in it
+type capReaderAt struct {
+	io.ReaderAt
+	capacity int64
+}
+
+func (r capReaderAt) Size() int64 { return r.capacity }
+
 type signStep struct {
 	key     int // key index in the pool
 	reparse bool
@@ -176,6 +188,9 @@ func c03Eval(c *Ctx, cs Case) {
 	c.Count(cs.Key(), true, fmt.Sprintf("sign/%s/steps%d", cls, len(steps)))
 	c.Sample(cs)
 	fail := func(what, goObs, spec string) {
+		if k := int(cs.I("rd")); k%len(c03ReaderKinds) != 0 {
+			what += " [the object that is signed was parsed through: " + c03ReaderKinds[k%len(c03ReaderKinds)] + "]"
+		}
 		c.Fail(Failure{Kind: "property", What: what, Case: cs, Go: clip(goObs), Spec: clip(spec)})
 	}
 	spec0 := c.Drv.Ask("pe.spec", hx(img))
@@ -189,12 +204,58 @@ func c03Eval(c *Ctx, cs Case) {
 	pair := cs.I("pair") != 0
 	sch := newTurnSched()
 	quanta := caseInts(cs["sched"])
-	parseVia := func(b []byte) (q *authenticode.PECOFFBinary, err error) {
-		var rd io.ReaderAt = bytes.NewReader(b)
-		if pair {
-			rd = turnReader{rd, sch}
+	// the io.ReaderAt kinds the image and the signed files are handed over with: rd for the object that is signed
+	// (first Parse and the re-parse steps of the history), rd2 for the re-parse of every output. An image is the
+	// bytes a reader delivers; what else the reader's type can do (Size, Stat, Len, Seek) is the caller's business.
+	var open []*os.File
+	defer func() {
+		for _, f := range open {
+			f.Close()
+			os.Remove(f.Name())
 		}
-		return authenticode.Parse(rd)
+	}()
+	rdSalt := int(cs.I("rdsalt"))
+	readerOf := func(kind int, turns bool, b []byte) io.ReaderAt {
+		var inner io.ReaderAt = bytes.NewReader(b)
+		if turns {
+			inner = turnReader{inner, sch}
+		}
+		n := int64(len(b))
+		extra := []int64{1, 7, 8, 9, 4096, 1 << 20, 1 << 40}[rdSalt%7]
+		c.Class("reader/" + c03ReaderKinds[kind%len(c03ReaderKinds)])
+		switch c03ReaderKinds[kind%len(c03ReaderKinds)] {
+		case "eof-with-last-read":
+			if !turns {
+				return eofAtEnd{b}
+			}
+		case "section-window":
+			if !turns {
+				big := append(append(bytes.Repeat([]byte{0xEE}, 8+rdSalt%64), b...), bytes.Repeat([]byte{0xDD}, 1+rdSalt%97)...)
+				return io.NewSectionReader(bytes.NewReader(big), int64(8+rdSalt%64), n)
+			}
+		case "section-oversized": // declared larger than the data: a generous upper bound
+			return io.NewSectionReader(inner, 0, n+extra)
+		case "section-unbounded": // the io.NewSectionReader(r, 0, 1<<63-1) idiom
+			return io.NewSectionReader(inner, 0, 1<<63-1)
+		case "size-is-capacity": // a caller's type whose Size() is the capacity of its storage, not the length of the file
+			return capReaderAt{inner, n + extra}
+		case "strings.Reader":
+			if !turns {
+				return strings.NewReader(string(b))
+			}
+		case "os.File":
+			if f, err := os.CreateTemp("", "vcheck-c03-*"); err == nil && !turns {
+				open = append(open, f)
+				if _, err := f.Write(b); err == nil {
+					return f
+				}
+			}
+		}
+		return inner
+	}
+	rdKind, rd2Kind := int(cs.I("rd")), int(cs.I("rd2"))
+	parseVia := func(b []byte) (q *authenticode.PECOFFBinary, err error) {
+		return authenticode.Parse(readerOf(rdKind, pair, b))
 	}
 	// digest queries under other algorithms that the caller puts between the steps (hq != 0)
 	hq := uint32(cs.I("hq"))
@@ -358,11 +419,20 @@ func c03Eval(c *Ctx, cs Case) {
 			fail(fmt.Sprintf("step %d: the digest changed by signing", i), hx(before), hx(want[:]))
 		}
 		var p2 *authenticode.PECOFFBinary
-		if pan, _ := safely(func() { p2, err = authenticode.Parse(bytes.NewReader(out)) }); pan || err != nil {
-			fail(fmt.Sprintf("step %d: re-parsing the output failed", i), fmt.Sprint(err), "")
+		rd2Name := c03ReaderKinds[rd2Kind%len(c03ReaderKinds)]
+		if pan, _ := safely(func() { p2, err = authenticode.Parse(readerOf(rd2Kind, false, out)) }); pan || err != nil {
+			fail(fmt.Sprintf("step %d: re-parsing the output (handed over through: %s) failed", i, rd2Name), fmt.Sprint(err), "")
 			return
 		} else if d := p2.Hash(crypto.SHA256); !bytes.Equal(d, before) {
-			fail(fmt.Sprintf("step %d: re-parsing the output reports a different digest than before signing", i), hx(d), hx(before))
+			fail(fmt.Sprintf("step %d: re-parsing the output (handed over through: %s) reports a different digest than before signing", i, rd2Name), hx(d), hx(before))
+		}
+		if rd2Name != c03ReaderKinds[0] {
+			// ... and it verifies there against the certificate that has just signed it
+			var ok bool
+			var verr error
+			if pan, _ := safely(func() { ok, verr = p2.Verify(cert) }); pan || !ok || verr != nil {
+				fail(fmt.Sprintf("step %d: the re-parsed output (handed over through: %s) does not verify against the certificate that signed it", i, rd2Name), fmt.Sprint(pan, ok, verr), "true <nil>")
+			}
 		}
 		if hq != 0 {
 			// the re-parsed copy is asked for another digest first and then verified on that same object
@@ -493,9 +563,10 @@ func c03Gen(c *Ctx) {
 	// third-party signed and unsigned binaries of the repository as starting points
 	fixtures := []string{"tests/data/binary/HelloWorld.efi", "tests/data/binary/HelloWorld.efi.signed", "authenticode/testdata/test.pecoff", "authenticode/testdata/test.pecoff.signed"}
 	for i, f := range fixtures {
-		c03Eval(c, Case{"op": "sign-history", "path": f, "steps": mkSteps(), "bits": int64(2048), "cnpad": int64(c.Rng.Intn(9)), "hq": int64(i % 2 * (1 + c.Rng.Intn(1<<20)))})
+		c03Eval(c, Case{"op": "sign-history", "path": f, "steps": mkSteps(), "bits": int64(2048), "cnpad": int64(c.Rng.Intn(9)), "hq": int64(i % 2 * (1 + c.Rng.Intn(1<<20))),
+			"rd": int64(2*i + 1), "rd2": int64(2*i + 2), "rdsalt": int64(c.Rng.Intn(1 << 16))})
 		c03Eval(c, Case{"op": "sign-history", "path": f, "steps": mkSteps(), "bits": int64(2048), "cnpad": int64(c.Rng.Intn(9)), "hq": int64((i + 1) % 2 * (1 + c.Rng.Intn(1<<20))),
-			"pair": int64(1), "sched": mkSched(), "partner": fixtures[(i+2)%len(fixtures)]})
+			"pair": int64(1), "sched": mkSched(), "partner": fixtures[(i+2)%len(fixtures)], "rd": int64(3 + i%3), "rd2": int64(7 - 2*i), "rdsalt": int64(c.Rng.Intn(1 << 16))})
 	}
 	for i := 0; i < c.N(50, 3000) && c.NFailures() < 6; i++ {
 		s := genPeSpec(c, i%20 == 0)
@@ -508,6 +579,15 @@ func c03Gen(c *Ctx) {
 		if i%3 != 0 {              // two histories of three: digest queries under other algorithms between the steps
 			cs["hq"] = int64(1 + c.Rng.Intn(1<<20))
 		}
+		// the reader kinds: two histories of three hand the image (and every file that is re-parsed) over through
+		// something else than a bytes.Reader, the kinds whose Size() exceeds the data twice as often as the others
+		if i%3 != 1 {
+			cs["rd"] = int64([]int{1, 2, 3, 3, 4, 4, 5, 5, 6, 7}[c.Rng.Intn(10)])
+		}
+		if i%3 != 2 {
+			cs["rd2"] = int64([]int{1, 2, 3, 3, 4, 4, 5, 5, 6, 7}[c.Rng.Intn(10)])
+		}
+		cs["rdsalt"] = int64(c.Rng.Intn(1 << 16))
 		if i%2 == 1 { // every second history is signed while a partner image is signed by another goroutine
 			cs["pair"] = int64(1)
 			cs["sched"] = mkSched()
@@ -518,7 +598,7 @@ func c03Gen(c *Ctx) {
 
 func init() {
 	register("C03", &PropDef{
-		Rule:   "well-formed images from the C01 generator (all layout classes; unsigned and with an existing 1- or 2-entry certificate table) x signing histories of 1..3 signatures by two RSA keys (one under a CA-issued certificate; 2048; thorough also 3072/4096) in any order, the same key possibly twice, under certificates whose names run through 8 consecutive lengths so that the signature length takes every residue mod 8, the signers' certificates sharing nothing / the serial number only / the issuer name only, with serialise/re-parse after a random subset of steps; every third image carries a left-over certificate-table address with size 0 in its directory entry (address classes as in C01: 1, inside headers / sections / trailing data, end of sections, file end, padded file end, beyond the file, 2^32-1), i.e. an image whose signatures were removed by clearing the size; every serialised image of a history stays held (with a private copy) while the object is signed, queried and serialised again and is compared with its copy after each step, and each step serialises twice; in two histories of three the caller asks the objects for digests under other algorithms between the steps (one of SHA-1/256/384/512, chosen by the history, of the object about to be signed, of the signed object before it is verified, and of the re-parsed output, which is then verified on that same object): each must be that algorithm over the specification's hash input and must leave signing and verification as they are; every second history (and each repository binary once) is signed WHILE A SECOND IMAGE IS SIGNED by another goroutine through an object of its own (the same layout with other contents; for a repository binary another repository binary) - both objects read through caller-supplied io.ReaderAts that make the two goroutines take turns at read granularity under the history's schedule (first turn 0..1 reads, later turns 0..3; sched.go), so each Sign is parked in the middle of hashing while the other proceeds, deterministically - and after each such step both images are verified at the same time: the image's output is judged as always, the partner's signature must embed the specification digest of the partner's output, which must verify; Signatures() of the re-parsed output must list exactly the old entries and the new signatures (body bytes, dwLength = 8 + body, revision 0x0200, type 2) and Open() must deliver the bytes of Bytes(); after every step the output bytes are checked by an independent walker, its digest by the Lean Spec, and the 3-certificate verification matrix by the library, the Lean Impl model and the Lean Spec. Every case is non-trivial; distinct = distinct (image spec, history).",
+		Rule:   "well-formed images from the C01 generator (all layout classes; unsigned and with an existing 1- or 2-entry certificate table) x signing histories of 1..3 signatures by two RSA keys (one under a CA-issued certificate; 2048; thorough also 3072/4096) in any order, the same key possibly twice, under certificates whose names run through 8 consecutive lengths so that the signature length takes every residue mod 8, the signers' certificates sharing nothing / the serial number only / the issuer name only, with serialise/re-parse after a random subset of steps; every third image carries a left-over certificate-table address with size 0 in its directory entry (address classes as in C01: 1, inside headers / sections / trailing data, end of sections, file end, padded file end, beyond the file, 2^32-1), i.e. an image whose signatures were removed by clearing the size; every serialised image of a history stays held (with a private copy) while the object is signed, queried and serialised again and is compared with its copy after each step, and each step serialises twice; in two histories of three the caller asks the objects for digests under other algorithms between the steps (one of SHA-1/256/384/512, chosen by the history, of the object about to be signed, of the signed object before it is verified, and of the re-parsed output, which is then verified on that same object): each must be that algorithm over the specification's hash input and must leave signing and verification as they are; every second history (and each repository binary once) is signed WHILE A SECOND IMAGE IS SIGNED by another goroutine through an object of its own (the same layout with other contents; for a repository binary another repository binary) - both objects read through caller-supplied io.ReaderAts that make the two goroutines take turns at read granularity under the history's schedule (first turn 0..1 reads, later turns 0..3; sched.go), so each Sign is parked in the middle of hashing while the other proceeds, deterministically - and after each such step both images are verified at the same time: the image's output is judged as always, the partner's signature must embed the specification digest of the partner's output, which must verify; Signatures() of the re-parsed output must list exactly the old entries and the new signatures (body bytes, dwLength = 8 + body, revision 0x0200, type 2) and Open() must deliver the bytes of Bytes(); after every step the output bytes are checked by an independent walker, its digest by the Lean Spec, and the 3-certificate verification matrix by the library, the Lean Impl model and the Lean Spec. READER KINDS: an image is the bytes an io.ReaderAt delivers, whatever else the reader's type offers. In two histories of three (and for every repository binary) the image - and every signed file that a re-parse step of the history hands back to Parse - is handed over through one of: a reader that returns io.EOF together with the last read, an io.SectionReader window into a larger buffer, an io.SectionReader DECLARED LARGER than the data (by 1, 7, 8, 9, 4096, 2^20 or 2^40 bytes: Size() is not the file length), the io.NewSectionReader(r, 0, 1<<63-1) idiom, a caller's type whose Size() method is the capacity of its storage, a strings.Reader, a regular *os.File (the two section kinds and the capacity kind twice as often; in the two-goroutine histories they wrap the turn-taking reader); independently, in two histories of three the output of every step is re-parsed through one of these kinds, must report the digest from before signing there and must verify there against the certificate that has just signed it. The layout oracle (original bytes kept, zero padding to 8, directory entry = aligned table to end of file), the digest, the table walk and the verification matrix are the same for every reader kind. Every case is non-trivial; distinct = distinct (image spec, history, reader kinds).",
 		Assume: []string{"no two signing certificates share both issuer and serial (two different keys under one issuer+serial make the verification loop stop with an error at the first of them; noted, not claimed)", "RSA PKCS#1 v1.5 signatures are deterministic"},
 		Eval:   c03Eval, Gen: c03Gen,
 	})
